@@ -40,7 +40,8 @@ CONTEXTS = {
 SIBLINGS = {'none': ('', ''), 'pre-temp': ('const p = <Foo>{{f1()}}</Foo>;\n', ''), 'post-temp': ('', '\nconst r = <Foo>{{f1()}}</Foo>;'), 'pre-arrow': ('const p = () => <Foo>{{f1()}}</Foo>;\n', ''),
             'post-empty-fn': ('', '\nfunction noop() {{}}'), 'post-empty-block': ('', '\n{{}}'), 'post-empty-method': ('', '\nclass E {{ m() {{}} }}'),
             'post-empty-catch': ('', '\ntry {{ f1(); }} catch {{}}'), 'post-empty-if': ('', '\nif (v1) {{}}'), 'pre-empty-fn': ('function noop() {{}}\n', ''), 'post-empty-arrow': ('', '\nconst noop = () => {{}};'),
-            'user-names': ('const _slot = 1, _createVNode = 2; function _isSlot() {{}}\n', ''), 'pre-assign': ('v1 = 3;\n', ''), 'post-fn': ('', '\nfunction r() {{ return <Foo>{{f1()}}</Foo>; }}')}
+            'user-names': ('const _slot = 1, _createVNode = 2; function _isSlot() {{}}\n', ''),
+            'user-snapshot-names': ('let _v1 = v1, _v3 = 7, _p1 = 8, _l1 = 9;\n', '\nf1(_v1, _v3, _p1, _l1);'), 'user-snapshot-global': ('', '\nf1(_v1, _slot, _v3);'), 'pre-assign': ('v1 = 3;\n', ''), 'post-fn': ('', '\nfunction r() {{ return <Foo>{{f1()}}</Foo>; }}')}
 
 
 def make_skeleton(spec):
@@ -56,6 +57,11 @@ def make_skeleton(spec):
 
 # ------------------------------------------------------------------ scope analysis of the emitted module
 FUNCTION_TYPES = ('Function', 'ArrowExpr', 'Constructor', 'GetterProp', 'SetterProp')
+
+
+def _dummy(sp):
+    sp = deref(sp)
+    return isinstance(sp, Adt) and sp.ty == 'Span' and (sp.fields[0], sp.fields[1]) == (0, 0)
 
 
 class Scopes:
@@ -111,10 +117,12 @@ class Scopes:
         if ty == 'ImportDecl':
             for sp in v.get('specifiers'):
                 local = sp.fields[0].get('local')
-                self.decls.append({'key': self._key(local), 'kind': 'import', 'scope': list_ctx[0] if list_ctx else path, 'index': None, 'path': path})
+                self.decls.append({'key': self._key(local), 'kind': 'import', 'scope': list_ctx[0] if list_ctx else path, 'index': None, 'path': path,
+                                   'generated_node': _dummy(v.get('span'))})
             return
         if ty == 'FnDecl':
-            self.decls.append({'key': self._key(v.get('ident')), 'kind': 'fn', 'scope': list_ctx[0] if list_ctx else path, 'index': None, 'path': path})
+            self.decls.append({'key': self._key(v.get('ident')), 'kind': 'fn', 'scope': list_ctx[0] if list_ctx else path, 'index': None, 'path': path,
+                               'generated_node': _dummy(deref(v.get('function')).get('span'))})
             self._walk(v.get('function'), path + (v.names.index('function'),), fn_path, None)
             return
         if ty == 'VarDecl':
@@ -125,7 +133,7 @@ class Scopes:
                 for idn in ids:
                     if idn is not None:
                         self.decls.append({'key': self._key(idn), 'kind': kind.lower(), 'scope': (list_ctx[0] if list_ctx and kind != 'Var' else fn_path), 'index': list_ctx[1] if list_ctx else None,
-                                           'path': path, 'has_init': is_some(d.get('init'))})
+                                           'path': path, 'has_init': is_some(d.get('init')), 'generated_node': _dummy(v.get('span')) and _dummy(d.get('span'))})
                 if is_some(d.get('init')):
                     self._walk(d.get('init'), path + ('decl', di, 'init'), fn_path, list_ctx)
             return
@@ -223,6 +231,17 @@ def oracle(env):
             obs.append(Obligation('a generated binding is initialised before the use executes', ok or not same_fn, {'name': k[0], 'decl_index': d['index'], 'use_statement': j}))
     for d in gen_decls:
         obs.append(Obligation('every helper the transform imports or declares is used', d['key'] in used, {'name': d['key'][0], 'kind': d['kind']}))
+    # what the transform declares (nodes with a dummy span: temporaries, snapshots, helper, helper imports) binds identifiers that
+    # do not occur in the input at all - neither as a binding nor as a (possibly free) reference
+    input_ids = set()
+
+    def fin(v, p):
+        if isinstance(v, Adt) and v.ty == 'Ident' and v.names and 'ctxt' in v.names:
+            input_ids.add((denote.pystr(v.get('sym')), v.get('ctxt')))
+    astio.walk(env.pre, fin)
+    for d in sc.decls:
+        if d.get('generated_node') and d['kind'] in ('let', 'const', 'var', 'fn', 'import'):
+            obs.append(Obligation('a declaration the transform adds binds a name that does not occur in the input', d['key'] not in input_ids, {'name': d['key'][0], 'kind': d['kind']}))
     # generated bindings never share a (name, context) pair with a user binding
     for d in gen_decls:
         clash = [x for x in sc.decls if x is not d and x['key'] == d['key']]
